@@ -25,11 +25,101 @@ type Locker = sync.Locker
 
 // The rest of package sync passes through unchanged, so that a tree that starts
 // to use it still builds under the overlay: Pool and Map synchronise internally
-// (their operations are atomic for the scheduler and are NOT scheduling points
-// - accesses to the variable that holds them are still Touch points when it is
-// package-level), the Once helpers run their function at most once.
-type Pool = sync.Pool
+// (sync.Map: its operations are atomic for the scheduler and are NOT scheduling
+// points - accesses to the variable that holds it are still Touch points when it
+// is package-level), the Once helpers run their function at most once.
 type Map = sync.Map
+
+// Pool is a deterministic model of sync.Pool: the real one keeps per-processor
+// caches, so what Get returns depends on which OS thread a goroutine happens to
+// run on - nondeterminism the scheduler would not own. The model is one legal
+// behaviour of sync.Pool, and the one that shares most: Get returns the most
+// recently Put item (else New()), nothing is ever dropped. Get and Put are
+// scheduling points when two threads are live, and Put(x) happens before the
+// Get that returns x.
+type Pool struct {
+	noCopy noCopy
+	New    func() interface{}
+	mu     sync.Mutex
+	items  []interface{}
+	vc     vclock
+	owner  *Exec // the execution the items belong to: nothing is carried over to the next one
+}
+
+func (p *Pool) fresh() {
+	if p.owner != cur {
+		p.owner, p.items, p.vc = cur, nil, nil
+	}
+}
+
+type noCopy struct{}
+
+func (*noCopy) Lock()   {}
+func (*noCopy) Unlock() {}
+
+func (p *Pool) point() *thread {
+	e := cur
+	if e == nil || e.aborting {
+		return nil
+	}
+	t := e.helperOwner()
+	if t != nil {
+		return t
+	}
+	if !e.cfg.NoTouchPoints && len(e.threads)-e.finishedN >= 2 {
+		e.vmu.Lock()
+		a := ptrOf(p)
+		vs := e.touched[a]
+		if vs == nil {
+			vs = &varState{id: e.newObj(), pin: p}
+			e.touched[a] = vs
+		}
+		e.vmu.Unlock()
+		e.point(op{kind: opTouch, obj: vs.id})
+	}
+	return e.running
+}
+
+// Get returns the most recently Put item, or New().
+func (p *Pool) Get() interface{} {
+	t := p.point()
+	p.mu.Lock()
+	p.fresh()
+	var x interface{}
+	ok := false
+	if n := len(p.items); n > 0 {
+		x, ok = p.items[n-1], true
+		p.items = p.items[:n-1]
+		if t != nil {
+			cur.vmu.Lock()
+			t.vc.join(p.vc)
+			cur.vmu.Unlock()
+		}
+	}
+	p.mu.Unlock()
+	if !ok && p.New != nil {
+		x = p.New()
+	}
+	return x
+}
+
+// Put adds x to the pool.
+func (p *Pool) Put(x interface{}) {
+	if x == nil {
+		return
+	}
+	t := p.point()
+	p.mu.Lock()
+	p.fresh()
+	p.items = append(p.items, x)
+	if t != nil {
+		cur.vmu.Lock()
+		p.vc.join(t.vc)
+		t.vc.tick(t.id)
+		cur.vmu.Unlock()
+	}
+	p.mu.Unlock()
+}
 
 func OnceFunc(f func()) func() { return sync.OnceFunc(f) }
 
@@ -1260,6 +1350,7 @@ type access struct {
 
 type varState struct {
 	id    int
+	avc   vclock // released by atomic operations on this address
 	lastW access
 	hasW  bool
 	reads []access
@@ -1302,6 +1393,45 @@ func Touch(addr interface{}, write bool) {
 	}
 	e.vmu.Lock()
 	e.touchCheck(e.running, a, write, pc)
+	e.vmu.Unlock()
+}
+
+// Atomic marks an operation of sync/atomic on addr (called by the vatomic
+// stand-in before the real operation). It is a scheduling point when at least
+// two threads are live, and a synchronisation edge: the operation acquires and
+// releases the clock of its address.
+func Atomic(addr interface{}) {
+	e := cur
+	if e == nil {
+		return
+	}
+	if e.aborting {
+		if e.helperOwner() != nil {
+			return
+		}
+		goexit()
+	}
+	a := ptrOf(addr)
+	t := e.helperOwner()
+	e.vmu.Lock()
+	vs := e.touched[a]
+	if vs == nil {
+		vs = &varState{id: e.newObj(), pin: addr}
+		e.touched[a] = vs
+	}
+	e.vmu.Unlock()
+	if t == nil {
+		if !e.cfg.NoTouchPoints && len(e.threads)-e.finishedN >= 2 {
+			e.point(op{kind: opTouch, obj: vs.id})
+		}
+		t = e.running
+	}
+	e.vmu.Lock()
+	if t != nil {
+		t.vc.join(vs.avc)
+		vs.avc = vs.avc.copyFrom(t.vc)
+		t.vc.tick(t.id)
+	}
 	e.vmu.Unlock()
 }
 
